@@ -229,7 +229,7 @@ class Check(PropertyCheck):
             "k random cuts, all-one-byte; x random client/server interleavings. distinct = distinct (exchange, schedule); "
             "non-trivial = at least one segment boundary.")
     budget = {"quick": 2500, "thorough": 60000}
-    time_budget = {"quick": 20, "thorough": 480}
+    time_budget = {"quick": 20, "thorough": 400}
     fingerprints = ["mitmproxy.proxy.layers.http._http1:Http1Connection._handle_event", "mitmproxy.proxy.layers.http._http1:Http1Connection.read_body",
                     "mitmproxy.proxy.layers.http._http1:Http1Connection.wait", "mitmproxy.proxy.layers.http._http1:Http1Connection.mark_done",
                     "mitmproxy.proxy.layers.http._http1:Http1Connection.make_pipe",
